@@ -5,6 +5,7 @@ import (
 	"net/http"
 
 	"github.com/buildbuildio/pebbles/common"
+	"github.com/buildbuildio/pebbles/gqlerrors"
 	"github.com/buildbuildio/pebbles/requests"
 	"github.com/samber/lo"
 )
@@ -152,11 +153,18 @@ func (q *MultiOpQueryer) queryBatch(inputs []*requests.Request) ([]map[string]in
 	}
 
 	// format the result as needed
+	var errs gqlerrors.ErrorList
 	for i, resp := range resps {
 		if len(resp.Errors) != 0 {
-			return nil, resp.Errors
+			// report the errors of every failed request of the batch, not only of the first one
+			errs = append(errs, resp.Errors...)
+			continue
 		}
 		results[toFetchIndexes[i]] = resp.Data
+	}
+
+	if len(errs) != 0 {
+		return nil, errs
 	}
 
 	return results, nil
